@@ -103,6 +103,20 @@ static int32 writeNewSessionTicket(ssl_t *ssl, sslBuf_t *out);
 # endif /* USE_SERVER_SIDE_SSL */
 
 static int32 secureWriteAdditions(ssl_t *ssl, int32 numRecs);
+# if defined(USE_STATELESS_SESSION_TICKETS) && defined(USE_SERVER_SIDE_SSL)
+/* DTLS: the flight being retransmitted carried a NewSessionTicket, which
+   must go out again, byte for byte (the Finished that follows covers it) */
+static inline int resendingNewSessionTicket(const ssl_t *ssl)
+{
+#  ifdef USE_DTLS
+    return (ACTV_VER(ssl, v_dtls_any) && ssl->retransmit == 1 &&
+            ssl->sid != NULL && ssl->nstMsg != NULL &&
+            ssl->sid->sessionTicketState == SESS_TICKET_STATE_USING_TICKET);
+#  else
+    return 0;
+#  endif
+}
+# endif
 static int32 encryptFlight(ssl_t *ssl, unsigned char **end);
 
 /******************************************************************************/
@@ -1835,7 +1849,8 @@ ok:
         if (ssl->flags & SSL_FLAGS_SERVER)
         {
             if (ssl->sid &&
-                (ssl->sid->sessionTicketState == SESS_TICKET_STATE_RECVD_EXT))
+                ((ssl->sid->sessionTicketState == SESS_TICKET_STATE_RECVD_EXT)
+                 || resendingNewSessionTicket(ssl)))
             {
                 messageSize += ssl->recordHeadLen +
                     ssl->hshakeHeadLen + matrixSessionTicketLen() + 6;
@@ -1883,7 +1898,8 @@ ok:
         if (ssl->flags & SSL_FLAGS_SERVER)
         {
             if (ssl->sid &&
-                (ssl->sid->sessionTicketState == SESS_TICKET_STATE_RECVD_EXT))
+                ((ssl->sid->sessionTicketState == SESS_TICKET_STATE_RECVD_EXT)
+                 || resendingNewSessionTicket(ssl)))
             {
                 rc = writeNewSessionTicket(ssl, out);
             }
@@ -3959,12 +3975,38 @@ static int32 writeNewSessionTicket(ssl_t *ssl, sslBuf_t *out)
     /* Build the ticket first: the key list can have been emptied by
         matrixSslDeleteSessionTicketKey since the hello extension promised
         a ticket.  RFC 5077 3.3: the server then sends a zero-length ticket. */
+#   ifdef USE_DTLS
+    if (resendingNewSessionTicket(ssl) && ssl->nstMsgLen <= (int32) sizeof(tkt))
+    {
+        Memcpy(tkt, ssl->nstMsg, ssl->nstMsgLen);
+        tktLen = ssl->nstMsgLen;
+    }
+    else
+#   endif
     if (matrixCreateSessionTicket(ssl, tkt, &tktLen) < 0)
     {
         psTraceErrr("No session ticket key: sending empty NewSessionTicket\n");
         Memset(tkt, 0x0, 6); /* lifetime hint 0, ticket length 0 */
         tktLen = 6;
     }
+#   ifdef USE_DTLS
+    if (ACTV_VER(ssl, v_dtls_any) && ssl->retransmit == 0)
+    {
+        /* Save aside for retransmits */
+        if (ssl->nstMsg != NULL)
+        {
+            psFree(ssl->nstMsg, ssl->hsPool);
+        }
+        ssl->nstMsgLen = 0;
+        ssl->nstMsg = psMalloc(ssl->hsPool, tktLen);
+        if (ssl->nstMsg == NULL)
+        {
+            return SSL_MEM_ERROR;
+        }
+        Memcpy(ssl->nstMsg, tkt, tktLen);
+        ssl->nstMsgLen = tktLen;
+    }
+#   endif
     messageSize = ssl->recordHeadLen + ssl->hshakeHeadLen + tktLen;
 
     if ((rc = writeRecordHeader(ssl, SSL_RECORD_TYPE_HANDSHAKE,
